@@ -39,6 +39,37 @@ def d1(cx: Cx, ob: Ob) -> None:
                     ok = True
     if not ok:
         ob.violate(fn.qualname, fn.where, "chain does not raise ValueError on an empty sequence of converters", detail="empty")
+    # a return that does not come out of the fold (no add_record on its path): the records of the inputs reach the
+    # result without being matched against each other - with case_sensitive=False records equal up to case stay apart
+    from ..rules import guard_atoms as _ga0
+
+    for p_ in s.paths:
+        if p_.out is None or p_.out[0] != "return":
+            continue
+        def _has_add(events):
+            for e in events:
+                for t_ in (e.a, e.b):
+                    if isinstance(t_, tuple) and any(op(x) == "call" and op(x[1]) == "attr" and x[1][2] == "add_record" for x in subterms(t_)):
+                        return True
+                if e.body and any(_has_add(q.events) for q in e.body):
+                    return True
+            return False
+        if _has_add(p_.events):
+            continue
+        t_ret = p_.out[1]
+        if not any(x == convs for x in subterms(t_ret)):
+            continue
+        atoms0 = _ga0([g for g in p_.events if g.kind == "guard"])
+        if any(a == ("param", "case_sensitive") and pol is True for a, pol in atoms0):
+            ob.undecide(f"chain returns `{show(t_ret)[:50]}` without folding when case_sensitive is set and `{show(atoms0[-1][0])[:40]}`: that nothing would have been merged is not decided")
+        else:
+            ob.violate(
+                fn.qualname,
+                where(fn, p_.out[2]),
+                f"chain returns `{show(t_ret)[:60]}` on a path that never folds the records through add_record, whatever case_sensitive is: chain([c], case_sensitive=False) keeps records of c apart whose prefixes are equal up to case",
+                witness="chain([c], case_sensitive=False) with records GO and go in c keeps both",
+                detail="bypass-fold",
+            )
     adds = [(c, ev, ctx) for c, ev, ctx in s.calls("add_record")]
     if not adds:
         # maybe delegates to add_prefix / builds records differently
